@@ -751,6 +751,8 @@ async fn run_witness(w: &World, i: u64, am0: Arc<AuthManager>) -> CaseOut {
         3 => { req!("eve", "PLOT count OF ev_a"); req!("eve", "PLOT count OF ev_a VS count OF ev_b"); }
         4 => { req!("eve", "STORE ev_a FOR c1 PAYLOAD {\"k\":7,\"s\":\"x\"}"); req!("eve", "FLUSH"); }
         5 => {
+            // control (was the witness of C13-user-id-bypass): the id is refused, nobody signs as it
+            req!("root", "CREATE USER no-auth WITH KEY \"nk\"");
             req!("root", "CREATE USER bypass WITH KEY \"bk\"");
             req!("bypass", "QUERY ev_a");
             req!("bypass", "STORE ev_a FOR c1 PAYLOAD {\"k\":7,\"s\":\"x\"}");
@@ -760,8 +762,13 @@ async fn run_witness(w: &World, i: u64, am0: Arc<AuthManager>) -> CaseOut {
             req!("bypass", "GRANT READ ON ev_a TO eve");
         }
         6 => {
+            // control (was the witness of C13-sequence-tail): head readable, target not → 403
             req!("root", "GRANT READ ON ev_a TO eve");
+            req!("eve", "QUERY ev_a");
             req!("eve", "QUERY ev_b");
+            req!("eve", "QUERY ev_a FOLLOWED BY ev_b LINKED BY k");
+            req!("eve", "QUERY ev_b PRECEDED BY ev_a LINKED BY k");
+            req!("root", "GRANT READ ON ev_b TO eve");
             req!("eve", "QUERY ev_a FOLLOWED BY ev_b LINKED BY k");
         }
         7 => {
@@ -845,6 +852,7 @@ fn judge(truth: &Truth, user: &str, p: &Parsed, a: &Answer, name_types: &HashMap
     }
     let mut bad: Option<String> = None;
     let mut missing_types: Vec<String> = vec![];
+    let _ = &p.tails;
     match p.kind {
         "store" => {
             let et = p.write.clone().unwrap();
@@ -885,10 +893,8 @@ fn judge(truth: &Truth, user: &str, p: &Parsed, a: &Answer, name_types: &HashMap
                 "remember" => "anon-remember",
                 "compare" => "anon-compare",
                 "flush" => "anon-flush",
-                _ if user == "bypass" => "user-id-bypass",
-                "query" if !p.tails.is_empty()
-                    && truth.may_read(user, &p.reads[0])
-                    && missing_types.iter().all(|t| p.tails.contains(t) && *t != p.reads[0]) => "sequence-tail",
+                // `user-id-bypass` (fixed by 8e1fb08) and `sequence-tail` (fixed by 6e1140a) are
+                // no classes any more: a recurrence is an unclassified violation
                 _ => "-",
             };
             co.tallies.push(format!("departure={class}"));
